@@ -79,8 +79,18 @@ pub fn gen_train_world(rng: &mut Rng, plan: &mut Plan) {
         } else {
             (gen_surface(rng), gen_train_feature(rng))
         };
-        rows.push(format!("{},0,0,0,{}", csv_quote(&surface), feature));
+        // the parameter columns of a seed row are placeholders: whatever they hold, the row gets
+        // trained parameters
+        let placeholder = if rng.chance(1, 6) { *rng.pick(&[5000i64, -300, 1, 32767]) } else { 0 };
+        rows.push(format!("{},0,0,{placeholder},{}", csv_quote(&surface), feature));
         seeds.push((surface, feature));
+    }
+    // C15 only (its comparisons are byte-wise; C14 and C16 read these files line by line): a seed
+    // word, never used in the corpus, whose feature has a line break inside a quoted cell
+    let c15 = plan.prop == "C15";
+    if c15 && rng.chance(1, 12) {
+        rows.push(format!("{},0,0,0,P{},\"two\nlines\",R1", csv_quote(&gen_surface(rng)), rng.below(3)));
+        plan.set_param("multiline_feature", 1);
     }
     let mut lex = rows.join("\n");
     if rng.chance(3, 4) {
@@ -97,8 +107,15 @@ pub fn gen_train_world(rng: &mut Rng, plan: &mut Plan) {
                 2 => format!("P{},*,*", rng.below(3)),
                 _ => format!("UNKP,S{},*", rng.below(2)),
             };
-            unk_rows.push(format!("{c},0,0,0,{f}"));
+            let placeholder = if rng.chance(1, 8) { *rng.pick(&[300i64, -1, 7]) } else { 0 };
+            unk_rows.push(format!("{c},0,0,{placeholder},{f}"));
         }
+    }
+    // C15 only: a category in the middle of char.def without any unknown-word row
+    if c15 && cats.len() >= 3 && rng.chance(1, 10) {
+        let victim = format!("{},", cats[1 + rng.usize(cats.len() - 2)]);
+        unk_rows.retain(|r| !r.starts_with(&victim));
+        plan.set_param("category_without_unk_rows", 1);
     }
     if rng.chance(1, 2) {
         rng.shuffle(&mut unk_rows);
@@ -1016,7 +1033,7 @@ impl Scenario for ExportScenario {
     fn describe(&self) -> ScenarioInfo {
         ScenarioInfo {
             level: "exploration",
-            rule: "one seeded run = a seeded trainer world (seed lexicon 4-12 rows with homographs and quoted features, unk.def 1-2 rows per category in shuffled file order, 1-5 unigram and 1-6 bigram templates with optional references, seeded rewrite rules, corpus of 1-6 sentences with known, unknown-compatible and virtual-edge words, max_iter 5-30, one thread) trained with the real trainer; optional read_user_lexicon (rows given as 0,0,0 and rows with explicit parameters); write_dictionary fault-free (compared field by field with the reference image recomputed from RawModel::merge(): row order, surfaces, verbatim features, merged class ids, header dimensions, every cost == trunc(-w*32767/max|w|), matrix entry set and order, user rows), through short-write/EINTR sinks (identical bytes), and with a hard fault at a seeded offset of one of the four sinks (must return Err, never Ok with a short file); the emitted files are read back through benign-faulty readers and must compile, the emitted user file must load. Added later: user rows that duplicate a seed word (1 world in 3; such a row given as 0,0,0 must get the seed word's cost and a matrix row/column with the same costs), user rows with ids 0,0 and a non-zero cost (kept), a CR inside a surface (1 in 40), empty feature columns, unigram/bigram templates without literal text or with placeholders of another kind, 1 world in 10 with 10-15 bigram templates; sinks by &mut or owned BufWriter/LineWriter. Round 5: 1 run in 3 of those with a user lexicon sends the model through write_model/read_model first (the train -> dictgen flow). distinct_nontrivial = distinct plan hashes of runs whose training succeeded and that made >= 1 comparison",
+            rule: "one seeded run = a seeded trainer world (seed lexicon 4-12 rows with homographs and quoted features, unk.def 1-2 rows per category in shuffled file order, 1-5 unigram and 1-6 bigram templates with optional references, seeded rewrite rules, corpus of 1-6 sentences with known, unknown-compatible and virtual-edge words, max_iter 5-30, one thread) trained with the real trainer; optional read_user_lexicon (rows given as 0,0,0 and rows with explicit parameters); write_dictionary fault-free (compared field by field with the reference image recomputed from RawModel::merge(): row order, surfaces, verbatim features, merged class ids, header dimensions, every cost == trunc(-w*32767/max|w|), matrix entry set and order, user rows), through short-write/EINTR sinks (identical bytes), and with a hard fault at a seeded offset of one of the four sinks (must return Err, never Ok with a short file); the emitted files are read back through benign-faulty readers and must compile, the emitted user file must load. Added later: user rows that duplicate a seed word (1 world in 3; such a row given as 0,0,0 must get the seed word's cost and a matrix row/column with the same costs), user rows with ids 0,0 and a non-zero cost (kept), a CR inside a surface (1 in 40), empty feature columns, unigram/bigram templates without literal text or with placeholders of another kind, 1 world in 10 with 10-15 bigram templates; sinks by &mut or owned BufWriter/LineWriter. Round 5: 1 run in 3 of those with a user lexicon sends the model through write_model/read_model first (the train -> dictgen flow). Round 6: seed lex.csv/unk.def rows carry non-zero placeholder costs now and then (they must not survive). distinct_nontrivial = distinct plan hashes of runs whose training succeeded and that made >= 1 comparison",
             assumptions: vec![
                 "rucrf's RawModel::merge() is the trusted definition of the merged classes and weights",
                 "costs are accepted under either floating evaluation order of -w*32767/max|w|",
@@ -1390,7 +1407,7 @@ impl Scenario for ModelRoundTripScenario {
     fn describe(&self) -> ScenarioInfo {
         ScenarioInfo {
             level: "exploration",
-            rule: "one seeded run = a seeded trainer world trained with the real trainer, then a history: phase 1 any sequence of Gen(replica) (write_dictionary + write_bigram_details twice: must be stable), RoundTrip(replica) (write_model -> short-write/EINTR sink -> short-read/EINTR reader -> read_model, new replica; returned count == bytes accepted), FailWrite/FailRead (hard fault at a seeded offset must give Err); phase 2 read_user_lexicon on every replica; phase 3 GenAll: every replica must emit identical lex/matrix/unk/user/bigram.left/bigram.right bytes and identical bigram.cost line multisets. Replicas with warm and cold merged-model caches coexist. distinct_nontrivial = distinct plan hashes of runs whose training succeeded with >= 1 comparison after >= 1 round trip or user lexicon",
+            rule: "one seeded run = a seeded trainer world trained with the real trainer, then a history: phase 1 any sequence of Gen(replica) (write_dictionary + write_bigram_details twice: must be stable), RoundTrip(replica) (write_model -> short-write/EINTR sink -> short-read/EINTR reader -> read_model, new replica; returned count == bytes accepted), FailWrite/FailRead (hard fault at a seeded offset must give Err); phase 2 read_user_lexicon on every replica; phase 3 GenAll: every replica must emit identical lex/matrix/unk/user/bigram.left/bigram.right bytes and identical bigram.cost line multisets. Replicas with warm and cold merged-model caches coexist. Round 6 (C15 worlds only): 1 world in 10 has a middle category without unk.def rows, 1 in 12 a seed word whose feature has a line break inside a quoted cell. distinct_nontrivial = distinct plan hashes of runs whose training succeeded with >= 1 comparison after >= 1 round trip or user lexicon",
             assumptions: vec![
                 "model-file bytes are never compared across replicas (hash-order dependent; not claimed by the property)",
                 "round trips after read_user_lexicon are outside the property's quantifier (read_model starts without user entries) and not generated",
@@ -1435,7 +1452,7 @@ impl Scenario for SmallDicScenario {
     }
     fn runs(&self, tier: Tier) -> u64 {
         match tier {
-            Tier::Quick => 1_500,
+            Tier::Quick => 3_000,
             Tier::Thorough => 40_000,
         }
     }
